@@ -109,7 +109,7 @@ Leaves ==
     {TextN(w, tr) : w \in Words, tr \in Ws} \cup
     {ExprN(e, tr) : e \in Exprs, tr \in Ws} \cup
     {VoidN(nm, at, tr) : nm \in VoidNames, at \in AttrChoices, tr \in Ws} \cup
-    {CallN(c, af) : c \in {"leaf", "wrap"}, af \in Ws} \cup
+    {CallN(c, af) : c \in {"leaf", "wrap", "box.item"}, af \in Ws} \cup
     {SlotN(af) : af \in Ws} \cup
     {HCommentN(af) : af \in Ws} \cup
     {MCommentN(af) : af \in Ws} \cup
@@ -333,6 +333,8 @@ DenNode(nd, prev, env) ==
       [] nd.k = "switch" -> LET r == DenCases(nd.cases, Through(prev), env, 1)
                             IN [toks |-> r.toks, evs |-> << "S" >> \o r.evs, prev |-> After(r.prev)]
       [] nd.k = "call" -> [toks |-> IF nd.comp = "leaf" THEN LeafToks("may")
+                                    \* a template with a receiver: templ (b boxT) item() { <em>m</em> }, called as @box.item()
+                                    ELSE IF nd.comp = "box.item" THEN << TagTok("em", <<>>, "may"), Tok("word", "m", "mustnot"), Tok("close", "em", "mustnot") >>
                                     ELSE << TagTok("section", <<>>, "may"), Tok("close", "section", "may") >>,
                            evs |-> <<>>, prev |-> POpaque]
       [] nd.k = "callb" -> LET r == DenList(nd.body, POpaque, env) IN
